@@ -3,7 +3,7 @@ C05 — every TRXC command gets exactly one well-formed response with documented
 Property theorems only (toolkit side; trxcon's response parser is in Props/Trxcon).
 World model: `OsmoVerif.World` (Model/World.lean), command semantics: `OsmoVerif.Spec.Trxc`.
 -/
-import OsmoVerif.Lemmas.WorldCtrl
+import OsmoVerif.Lemmas.WorldCmd
 
 namespace OsmoVerif.Props.C05
 open OsmoVerif OsmoVerif.World OsmoVerif.PyStr
@@ -73,5 +73,252 @@ theorem bad_args_no_effect (w : World) (i a p : Nat) (d : List Nat) (s : Str) (t
   rcases hpc with hok | ⟨_, rfl, rfl, rfl⟩
   · rw [hv] at hok; cases hok
   · rw [h]; simp only [rspText, List.append_nil]
+
+/-! ### documented effect of every command
+
+Stated on `parse_cmd`; `one_reply_per_cmd` carries status, results and new world into the reply
+and the world after `handle_rx`.  `t` is the addressed transceiver (`w.trxs[i]? = some t`),
+arguments are the strings of the request with `pyInt a = some v` (`int(a) == v`). -/
+
+/-- POWERON: −1 while running; −1 unless tuned (Rx and Tx frequency set) or hopping; otherwise 0
+and `power_event_handler(poweron=True)` has been applied. -/
+theorem poweron_status (w : World) (i : Nat) (t : Trx) (ht : w.trxs[i]? = some t) :
+    powerEvent w i true = .ok (powered w i t true) ∧
+    parseCmd w i [lit "POWERON"] =
+      .ok (if t.running then (w, (-1, []))
+           else if ¬ ((t.rxFreq.isSome && t.txFreq.isSome) || t.fh.isSome) then (w, (-1, []))
+           else (powered w i t true, (0, []))) := by
+  refine ⟨powerEvent_powered ht true, ?_⟩
+  rw [← ready_iff]
+  cases hr : t.running with
+  | true => simp only [if_true]; exact parseCmd_poweron_running ht hr
+  | false =>
+    cases hrd : t.ready with
+    | false => simp [parseCmd_poweron_notready ht hr hrd]
+    | true => simp [parseCmd_poweron_ok ht hr hrd]
+
+/-- POWEROFF: always 0, `power_event_handler(poweron=False)` applied (running cleared, queue
+flushed, hopping disabled, clock stopped with the last link). -/
+theorem poweroff_status (w : World) (i : Nat) (t : Trx) (ht : w.trxs[i]? = some t) :
+    powerEvent w i false = .ok (powered w i t false) ∧
+    parseCmd w i [lit "POWEROFF"] = .ok (powered w i t false, (0, [])) :=
+  ⟨powerEvent_powered ht false, parseCmd_poweroff ht⟩
+
+/-- RXTUNE <kHz>: status 0, `_rx_freq = kHz·1000` -/
+theorem rxtune_effect (w : World) (i : Nat) (t : Trx) (a : Str) (v : Int)
+    (ht : w.trxs[i]? = some t) (ha : pyInt a = some v) :
+    parseCmd w i [lit "RXTUNE", a] =
+      .ok (setTrx w i (fun t => { t with rxFreq := some (v * 1000) }), (0, [])) :=
+  parseCmd_rxtune ht ha
+
+/-- TXTUNE <kHz>: status 0, `_tx_freq = kHz·1000` -/
+theorem txtune_effect (w : World) (i : Nat) (t : Trx) (a : Str) (v : Int)
+    (ht : w.trxs[i]? = some t) (ha : pyInt a = some v) :
+    parseCmd w i [lit "TXTUNE", a] =
+      .ok (setTrx w i (fun t => { t with txFreq := some (v * 1000) }), (0, [])) :=
+  parseCmd_txtune ht ha
+
+/-- SETFH <HSN> <MAIO> <RXF1> <TXF1> …: status 0 and `fh = HoppingParams(hsn, maio, pairs)` with
+the (Rx, Tx) pairs in Hz (an odd trailing frequency dropped) iff 0 ≤ HSN < 64; otherwise −1 and
+nothing changes.  (At least one pair is guaranteed by the four-argument minimum.) -/
+theorem setfh_effect (w : World) (i : Nat) (t : Trx) (h m c d : Str) (r : List Str)
+    (hsn maio : Int) (fvals : List Int)
+    (ht : w.trxs[i]? = some t) (hh : pyInt h = some hsn) (hm : pyInt m = some maio)
+    (hf : IntArgs (c :: d :: r) fvals) :
+    Spec.Trxc.pairsHz fvals ≠ [] ∧
+    parseCmd w i (lit "SETFH" :: h :: m :: c :: d :: r) =
+      .ok (if 0 ≤ hsn ∧ hsn < 64 then
+             (setTrx w i (fun t => { t with fh := some (Hopping.HoppingParams.mk hsn maio
+                (Spec.Trxc.pairsHz fvals) (Hopping.powNbinMask (Spec.Trxc.pairsHz fvals).length)) }),
+              (0, []))
+           else (w, (-1, []))) := by
+  constructor
+  · obtain ⟨v1, vs1, rfl, _, hf1⟩ := intArgs_cons hf
+    obtain ⟨v2, vs2, rfl, _, _⟩ := intArgs_cons hf1
+    exact pairsHz_ne_nil _ _ _
+  · by_cases hr : 0 ≤ hsn ∧ hsn < 64
+    · rw [if_pos hr]; exact parseCmd_setfh_ok ht hh hm hf hr
+    · rw [if_neg hr]; exact parseCmd_setfh_badhsn ht hh hm hf (by omega)
+
+/-- SETFH with fewer than four arguments matches no row of the table: it falls through to the
+"unknown command" acknowledgement — status 0, nothing changes. -/
+theorem setfh_short_ack0 (w : World) (i : Nat) (t : Trx) (args : List Str)
+    (ht : w.trxs[i]? = some t) (hl : args.length < 4) :
+    parseCmd w i (lit "SETFH" :: args) = .ok (w, (0, [])) := by
+  apply parseCmd_unknown ht
+  rw [notInTable_iff]
+  have key : ∀ n : Fin 4, ∀ r ∈ Spec.Trxc.table, r.matches "SETFH" n.val = false := by decide
+  exact key ⟨args.length, hl⟩
+
+/-- SETFORMAT <ver>: −1 for ver < 0 or ver > 15; a version in KNOWN_VERSIONS is applied and
+echoed; an unsupported version in range is answered with the highest supported lower version
+(here 1) and nothing is applied. -/
+theorem setformat_status (w : World) (i : Nat) (t : Trx) (a : Str) (v : Int)
+    (ht : w.trxs[i]? = some t) (ha : pyInt a = some v) :
+    parseCmd w i [lit "SETFORMAT", a] =
+      .ok (if v < 0 ∨ v > 15 then (w, (-1, []))
+           else if v ∈ Gen.Trxd.knownVersions then
+             (setTrx w i (fun t => { t with hdrVer := v }), (v, []))
+           else (w, (Spec.Trxc.highestSupportedUpTo v, []))) := by
+  by_cases hr : v < 0 ∨ v > 15
+  · rw [if_pos hr]; exact parseCmd_setformat_range ht ha hr
+  · rw [if_neg hr]
+    by_cases hk : v = 0 ∨ v = 1
+    · have : v ∈ Gen.Trxd.knownVersions := by rcases hk with rfl | rfl <;> decide
+      rw [if_pos this]; exact parseCmd_setformat_known ht ha hk
+    · have hm : ¬ v ∈ Gen.Trxd.knownVersions := by
+        intro hm
+        simp [Gen.Trxd.knownVersions] at hm
+        omega
+      have hh : Spec.Trxc.highestSupportedUpTo v = 1 := by
+        have : ∀ n : Fin 14, Spec.Trxc.highestSupportedUpTo ((n.val : Int) + 2) = 1 := by decide
+        have h2 := this ⟨(v - 2).toNat, by omega⟩
+        simp only at h2
+        rwa [show (((v - 2).toNat : Nat) : Int) + 2 = v by omega] at h2
+      rw [if_neg hm, hh]; exact parseCmd_setformat_unsupported ht ha (by omega)
+
+/-- MEASURE <kHz>: status 0 and one result, the `drawK`-th draw of the run from the transmitter
+range (−75…−50) iff a running, non-hopping transceiver transmits on kHz·1000, else from the noise
+range (−120…−105); the only state change is the draw counter.  −1 without a power meter. -/
+theorem measure_effect (w : World) (i : Nat) (t : Trx) (a : Str) (v : Int)
+    (ht : w.trxs[i]? = some t) (ha : pyInt a = some v) (hpm : t.hasPm = true) :
+    ∃ dbm lo hi,
+      (lo, hi) = Spec.Trxc.measureRange (fakePmFound w.trxs (v * 1000)) ∧
+      (fakePmFound w.trxs (v * 1000) = true ↔
+        ∃ x ∈ w.trxs, x.running = true ∧ x.fh = none ∧ x.txFreq = some (v * 1000)) ∧
+      draw w.seed w.drawK lo hi = .ok dbm ∧ lo ≤ dbm ∧ dbm ≤ hi ∧
+      parseCmd w i [lit "MEASURE", a] =
+        .ok ({ w with drawK := w.drawK + 1 }, (0, [intToStr dbm])) := by
+  obtain ⟨dbm, hd, hlo, hhi, hp⟩ := parseCmd_measure ht ha hpm
+  rw [pmRange_spec] at hd hlo hhi
+  exact ⟨dbm, _, _, rfl, fakePmFound_iff _ _, hd, hlo, hhi, hp⟩
+
+theorem measure_without_meter (w : World) (i : Nat) (t : Trx) (a : Str)
+    (ht : w.trxs[i]? = some t) (hpm : t.hasPm = false) :
+    parseCmd w i [lit "MEASURE", a] = .ok (w, (-1, [])) :=
+  parseCmd_measure_nopm ht hpm
+
+/-- SETPOWER <att>: status 0, `tx_att_base = att` -/
+theorem setpower_effect (w : World) (i : Nat) (t : Trx) (a : Str) (v : Int)
+    (ht : w.trxs[i]? = some t) (ha : pyInt a = some v) :
+    parseCmd w i [lit "SETPOWER", a] =
+      .ok (setTrx w i (fun t => { t with txAttBase := v }), (0, [])) :=
+  parseCmd_setpower ht ha
+
+/-- NOMTXPOWER: status 0, one result `str(tx_power_base)`, no state change -/
+theorem nomtxpower_reply (w : World) (i : Nat) (t : Trx) (ht : w.trxs[i]? = some t) :
+    parseCmd w i [lit "NOMTXPOWER"] = .ok (w, (0, [intToStr t.txPowerBase])) :=
+  parseCmd_nomtxpower ht
+
+/-- RFMUTE <v>: status 0, `rf_muted = (v > 0)` -/
+theorem rfmute_effect (w : World) (i : Nat) (t : Trx) (a : Str) (v : Int)
+    (ht : w.trxs[i]? = some t) (ha : pyInt a = some v) :
+    parseCmd w i [lit "RFMUTE", a] =
+      .ok (setTrx w i (fun t => { t with rfMuted := decide (v > 0) }), (0, [])) :=
+  parseCmd_rfmute ht ha
+
+/-- SETTA <ta>: status 0, `ta` stored -/
+theorem setta_effect (w : World) (i : Nat) (a : Str) (v : Int) (ha : pyInt a = some v) :
+    parseCmd w i [lit "SETTA", a] = .ok (setTrx w i (fun t => { t with ta := v }), (0, [])) :=
+  parseCmd_setta ha
+
+/-- FAKE_TOA <base> <thr>: −1 and no effect for a negative threshold, else 0 and both stored -/
+theorem fake_toa_abs (w : World) (i : Nat) (a b : Str) (base thr : Int)
+    (ha : pyInt a = some base) (hb : pyInt b = some thr) :
+    parseCmd w i [lit "FAKE_TOA", a, b] =
+      .ok (if thr < 0 then (w, (-1, []))
+           else (setTrx w i (fun t => { t with toaBase := base, toaThr := thr }), (0, []))) := by
+  by_cases h0 : thr < 0
+  · rw [if_pos h0]; exact parseCmd_fake_toa_neg ha hb h0
+  · rw [if_neg h0]; exact parseCmd_fake_toa ha hb (by omega)
+
+theorem fake_toa_rel (w : World) (i : Nat) (a : Str) (d : Int) (ha : pyInt a = some d) :
+    parseCmd w i [lit "FAKE_TOA", a] =
+      .ok (setTrx w i (fun t => { t with toaBase := t.toaBase + d }), (0, [])) :=
+  parseCmd_fake_toa_rel ha
+
+/-- FAKE_RSSI <base> <thr>: a negative threshold disables the simulation (status 0, base not
+even parsed); otherwise 0, both stored, simulation enabled -/
+theorem fake_rssi_abs (w : World) (i : Nat) (a b : Str) (base thr : Int)
+    (ha : pyInt a = some base) (hb : pyInt b = some thr) (h0 : 0 ≤ thr) :
+    parseCmd w i [lit "FAKE_RSSI", a, b] =
+      .ok (setTrx w i (fun t => { t with rssiBase := base, rssiThr := thr, fakeRssi := true }),
+        (0, [])) :=
+  parseCmd_fake_rssi ha hb h0
+
+theorem fake_rssi_disable (w : World) (i : Nat) (a b : Str) (thr : Int)
+    (hb : pyInt b = some thr) (h0 : thr < 0) :
+    parseCmd w i [lit "FAKE_RSSI", a, b] =
+      .ok (setTrx w i (fun t => { t with fakeRssi := false }), (0, [])) :=
+  parseCmd_fake_rssi_off hb h0
+
+theorem fake_rssi_rel (w : World) (i : Nat) (a : Str) (d : Int) (ha : pyInt a = some d) :
+    parseCmd w i [lit "FAKE_RSSI", a] =
+      .ok (setTrx w i (fun t => { t with rssiBase := t.rssiBase + d }), (0, [])) :=
+  parseCmd_fake_rssi_rel ha
+
+/-- FAKE_CI <base> <thr>: as FAKE_TOA -/
+theorem fake_ci_abs (w : World) (i : Nat) (a b : Str) (base thr : Int)
+    (ha : pyInt a = some base) (hb : pyInt b = some thr) :
+    parseCmd w i [lit "FAKE_CI", a, b] =
+      .ok (if thr < 0 then (w, (-1, []))
+           else (setTrx w i (fun t => { t with ciBase := base, ciThr := thr }), (0, []))) := by
+  by_cases h0 : thr < 0
+  · rw [if_pos h0]; exact parseCmd_fake_ci_neg ha hb h0
+  · rw [if_neg h0]; exact parseCmd_fake_ci ha hb (by omega)
+
+theorem fake_ci_rel (w : World) (i : Nat) (a : Str) (d : Int) (ha : pyInt a = some d) :
+    parseCmd w i [lit "FAKE_CI", a] =
+      .ok (setTrx w i (fun t => { t with ciBase := t.ciBase + d }), (0, [])) :=
+  parseCmd_fake_ci_rel ha
+
+/-- FAKE_DROP <n>: −1 for n < 0, else 0 and (amount, period) = (n, 1) -/
+theorem fake_drop_amount (w : World) (i : Nat) (a : Str) (n : Int) (ha : pyInt a = some n) :
+    parseCmd w i [lit "FAKE_DROP", a] =
+      .ok (if n < 0 then (w, (-1, []))
+           else (setTrx w i (fun t => { t with dropAmount := n, dropPeriod := 1 }), (0, []))) := by
+  by_cases h0 : n < 0
+  · rw [if_pos h0]; exact parseCmd_fake_drop1_neg ha h0
+  · rw [if_neg h0]; exact parseCmd_fake_drop1 ha (by omega)
+
+/-- FAKE_DROP <n> <period>: −1 for n < 0 or period ≤ 0, else 0 and both stored -/
+theorem fake_drop_period (w : World) (i : Nat) (a b : Str) (n per : Int)
+    (ha : pyInt a = some n) (hb : pyInt b = some per) :
+    parseCmd w i [lit "FAKE_DROP", a, b] =
+      .ok (if n < 0 ∨ per ≤ 0 then (w, (-1, []))
+           else (setTrx w i (fun t => { t with dropAmount := n, dropPeriod := per }), (0, []))) := by
+  by_cases h0 : n < 0
+  · rw [if_pos (.inl h0)]; exact parseCmd_fake_drop2_neg ha h0
+  · by_cases h1 : per ≤ 0
+    · rw [if_pos (.inr h1)]; exact parseCmd_fake_drop2_badperiod ha hb (by omega) h1
+    · rw [if_neg (by omega)]; exact parseCmd_fake_drop2 ha hb (by omega) (by omega)
+
+/-- FAKE_TRXC_DELAY <ms>: the delay is stored, the command is acknowledged with 0 -/
+theorem fake_trxc_delay_effect (w : World) (i : Nat) (t : Trx) (a : Str) (ms : Int)
+    (ht : w.trxs[i]? = some t) (ha : pyInt a = some ms) :
+    parseCmd w i [lit "FAKE_TRXC_DELAY", a] =
+      .ok (setTrx w i (fun t => { t with rspDelay := ms }), (0, [])) :=
+  parseCmd_fake_trxc_delay ht ha
+
+/-- any verb / argument-count combination that is not a row of the documented table
+(`NotInTable`: every `verify_cmd(request, V, n)` of the table is false) is acknowledged with
+status 0 and has no effect -/
+theorem unknown_verb_ack0 (w : World) (i : Nat) (t : Trx) (req : List Str)
+    (ht : w.trxs[i]? = some t) (h : NotInTable req) : parseCmd w i req = .ok (w, (0, [])) :=
+  parseCmd_unknown ht h
+
+/-- the rows of the documented table are mutually exclusive (its order carries no meaning) -/
+theorem table_rows_exclusive : Spec.Trxc.rowsExclusive = true := by decide
+
+/-- **`parse_cmd` implements the documented command table** (`Spec.Trxc.semantics`): for every
+verb `V` and every argument list that `int()` accepts, the status is the documented one and the
+new world and result parameters realise the documented effect. -/
+theorem cmd_meets_spec (w : World) (i : Nat) (t : Trx) (ht : w.trxs[i]? = some t)
+    (V : String) (args : List Str) (vals : List Int) (ha : IntArgs args vals) :
+    ∃ w' res,
+      parseCmd w i (lit V :: args) =
+        .ok (w', ((Spec.Trxc.semantics (viewOf t) V vals).status, res)) ∧
+      Realises w i t (Spec.Trxc.semantics (viewOf t) V vals).effect w' res :=
+  parseCmd_meets_spec ht V args vals ha
 
 end OsmoVerif.Props.C05
